@@ -13,7 +13,7 @@ SPEC = {
         'thorough': ['-unit', 9000, '-rounds', 6, '-calls', 64, '-deadline', 15],
     },
     'search_args': ['-unit', 3000, '-rounds', 2, '-calls', 64, '-deadline', 6],
-    'harness_timeout': {'quick': 300, 'thorough': 1500},
+    'harness_timeout': {'quick': 1500, 'thorough': 5400},
     'assumptions': [
         'value encodings are self-delimiting (C11) and round-trip (C01): hypotheses of C18_frames / C18_reply; the correspondence re-checks prefix-freeness of the encodings that occur in every case',
         'net/rpc holds a mutex around WriteRequest/WriteResponse and reads with one goroutine per side (frames are appended whole, one reader per Decoder); net/rpc itself is trusted',
@@ -30,7 +30,7 @@ def race_tier(chk, ok_c):
     if chk.tier != 'thorough':
         return
     out = os.path.join(chk.bdir, 'c18.race')
-    rc, o = vlib.sh(['go', 'build', '-race', '-tags', 'verif', '-o', out, './cmd/c18'], cwd=vlib.HARNESS, timeout=900,
+    rc, o = vlib.sh(['go', 'build', '-race', '-tags', 'verif', '-o', out, './cmd/c18'], cwd=vlib.HARNESS, timeout=1800,
                     env={'CGO_ENABLED': '1'})
     if rc != 0:
         chk.log('race build failed:\n' + o[-2000:])
